@@ -222,3 +222,58 @@ Proof.
   change (body_args_g bd (card_tokens txt) prm) with (body_args bd (card_tokens txt) prm).
   destruct (body_args bd (card_tokens txt) prm) as [p d]. reflexivity.
 Qed.
+
+(* ---------- the body pipeline WITH a TR number over any scalar (executed by the tie) ---------- *)
+Section BodyTrG.
+Context {T : Type} (S : Scalar T).
+Definition transf_of_list_g (l : list T) : option (@K3.transf T) :=
+  match l with
+  | [o1; o2; o3; b1; b2; b3; b4; b5; b6; b7; b8; b9] =>
+      Some ((o1, o2, o3), (b1, b2, b3), (b4, b5, b6), (b7, b8, b9))
+  | _ => None
+  end.
+Fixpoint lookup_g (n : Z) (trs : list (Z * list T)) : option (list T) :=
+  match trs with
+  | [] => None
+  | (k, v) :: r => if Z.eqb n k then Some v else lookup_g n r
+  end.
+Definition convert_text_body_tr_g (trs : list (Z * list T)) (txt : string)
+  : E3.res (list (K3.t4e (T:=T))) :=
+  match parse_surface_card S txt with
+  | Err _ => E3.Err E3.EMacroBody
+  | Ok (bc, name, tr, ty, prm) =>
+      match body_of_type ty with
+      | None => E3.Err E3.EMacroBody
+      | Some bd =>
+          let '(p, d) := body_args_g bd (card_tokens txt) prm in
+          if is_empty tr then K3.body_t4 S None bd p d
+          else match tr_number tr with
+               | Some n => match lookup_g n trs with
+                           | Some l => K3.body_t4 S (transf_of_list_g l) bd p d
+                           | None => E3.Err E3.EMacroBody
+                           end
+               | None => E3.Err E3.EMacroBody
+               end
+      end
+  end.
+End BodyTrG.
+
+Lemma lookup_g_M4 n (trs : list (Z * list R)) :
+  M4.lookup n trs = match lookup_g n trs with Some l => M4.Ok l | None => M4.Err M4.EKey end.
+Proof.
+  induction trs as [|[k v] r IH]; [reflexivity|]. cbn. destruct (Z.eqb n k); [reflexivity|exact IH].
+Qed.
+
+(* at the reals the executed pipeline is the one of the theorems *)
+Lemma convert_text_body_tr_g_RS trs txt :
+  convert_text_body_tr_g RS trs txt = convert_text_body trs txt.
+Proof.
+  unfold convert_text_body_tr_g, convert_text_body.
+  destruct (parse_surface_card RS txt) as [[[[[bc name] tr] ty] prm]|e]; [|reflexivity].
+  destruct (body_of_type ty) as [bd|]; [|reflexivity].
+  change (body_args_g bd (card_tokens txt) prm) with (body_args bd (card_tokens txt) prm).
+  destruct (body_args bd (card_tokens txt) prm) as [p d].
+  destruct (is_empty tr); [reflexivity|].
+  destruct (tr_number tr) as [n|]; [|reflexivity].
+  rewrite lookup_g_M4. destruct (lookup_g n trs) as [l|]; reflexivity.
+Qed.
